@@ -177,6 +177,7 @@ type c12OverlapIn struct {
 	Reqs   []c12OvReq `json:"reqs"`
 	Sched  [][]int    `json:"sched"` // [kind, ids...]: 0 enter, 1 leave, 2 burst
 	Stderr bool       `json:"stderr,omitempty"`
+	Traced bool       `json:"traced,omitempty"` // tracer.TracingHandler around the checks
 }
 
 type c12OvStep struct {
@@ -256,7 +257,7 @@ func c12Overlap(c *gen.Ctx, in c12OverlapIn) c12OverlapOut {
 		names = append(names, q.Name)
 	}
 	httpReqs := c12BuildAll(reqs)
-	steps, robs := rs.VerifC12Overlap(httpReqs, evs, in.Stderr)
+	steps, robs := rs.VerifC12Overlap(httpReqs, evs, in.Stderr, in.Traced)
 	batch := c12Batch(names...)
 	var out c12OverlapOut
 	out.Steps = []c12OvStep{}
@@ -545,7 +546,7 @@ func c12OverlapGen(c *gen.Ctx) {
 					if same == 1 {
 						n1 = "Overlap/a"
 					}
-					add(c12OverlapIn{Reqs: []c12OvReq{c12OvMake(r, k0, "Overlap/a"), c12OvMake(r, k1, n1)}, Sched: sched})
+					add(c12OverlapIn{Reqs: []c12OvReq{c12OvMake(r, k0, "Overlap/a"), c12OvMake(r, k1, n1)}, Sched: sched, Traced: (k0+k1+same)%2 == 1})
 					c.E.Count("kind:overlap-two-requests-exhaustive")
 				}
 			}
@@ -635,7 +636,7 @@ func c12OverlapGen(c *gen.Ctx) {
 		if r.Intn(10) == 0 { // events that do not apply
 			sched = append(sched, []int{1, r.Intn(n)}, []int{0, r.Intn(n)}, []int{1, n + 1})
 		}
-		add(c12OverlapIn{Reqs: reqs, Sched: sched, Stderr: stderr})
+		add(c12OverlapIn{Reqs: reqs, Sched: sched, Stderr: stderr, Traced: i%3 == 1})
 		if stderr {
 			c.E.Count("kind:overlap-random-stderr")
 		} else {
@@ -726,10 +727,11 @@ func c12StreamGen(c *gen.Ctx) {
 // shape of op overlap (events enter A, enter B, leave B, leave A) and is judged like it.
 
 type c12RealOverlapIn struct {
-	Srv   int        `json:"srv"`
-	Reqs  []c12OvReq `json:"reqs"`
-	ProcB string     `json:"procB"`
-	Sched [][]int    `json:"sched"`
+	Srv    int        `json:"srv"`
+	Reqs   []c12OvReq `json:"reqs"`
+	ProcB  string     `json:"procB"`
+	Sched  [][]int    `json:"sched"`
+	Traced bool       `json:"traced,omitempty"` // the server has a tracer
 }
 
 func init() {
@@ -756,7 +758,7 @@ func c12RealOverlap(c *gen.Ctx, in c12RealOverlapIn) c12OverlapOut {
 	if qa.A[6] == 1 {
 		clientCA = c12Certs.clientCert
 	}
-	srv, err := rs.VerifC12StartReal(int32(in.Srv), qa.A[5] == 1, c12Certs.serverCert, c12Certs.serverKey, clientCA)
+	srv, err := rs.VerifC12StartRealTraced(int32(in.Srv), qa.A[5] == 1, c12Certs.serverCert, c12Certs.serverKey, clientCA, in.Traced)
 	if err != nil {
 		return stuck(err.Error())
 	}
@@ -869,10 +871,137 @@ func c12RealOverlapGen(c *gen.Ctx) {
 				case 2: // the same test case twice
 					qb.Name = qa.Name
 				}
-				ins = append(ins, c12RealOverlapIn{Srv: t.srv, Reqs: []c12OvReq{qa, qb}, ProcB: p.proc, Sched: [][]int{{0, 0}, {0, 1}, {1, 1}, {1, 0}}})
+				ins = append(ins, c12RealOverlapIn{Srv: t.srv, Reqs: []c12OvReq{qa, qb}, ProcB: p.proc, Sched: [][]int{{0, 0}, {0, 1}, {1, 1}, {1, 0}}, Traced: (round+len(ins))%2 == 1})
 				c.E.Count("kind:real-overlap")
 			}
 		}
 	}
 	c.DoParallel("realoverlap", ins, 8)
+}
+
+// ---------------------------------------------------------------- the reference client's feedback
+//
+//   clientfb : {cases:[{name, mismatch, fb:[[[text,repeat],...],...]}]}
+//
+// Mode server: the client run by the runner is the reference client; what it finds wrong with a
+// response comes back in ClientResponseResult.feedback and the callback of the REAL
+// runTestCasesForServer records every message for the case (results.recordSideband), report()
+// merges it into the outcome. Messages are arbitrary texts (run-length coded in the input).
+
+type c12FbCase struct {
+	Name     string     `json:"name"`
+	Mismatch bool       `json:"mismatch,omitempty"`
+	Fb       [][][2]any `json:"fb"` // messages, each run-length coded
+}
+
+type c12ClientFbIn struct {
+	Cases []c12FbCase `json:"cases"`
+}
+
+type c12ClientFbOut struct {
+	Sideband [][2]any `json:"sideband"` // (test case, message - run-length coded)
+	Merged   [][2]any `json:"merged"`   // (test case, text of its failure after the merge - run-length coded)
+	Hang     bool     `json:"hang"`
+}
+
+func c12UnRLE(segs [][2]any) string {
+	var sb strings.Builder
+	for _, s := range segs {
+		text, _ := s[0].(string)
+		n, _ := s[1].(float64)
+		for k := 0; k < int(n); k++ {
+			sb.WriteString(text)
+		}
+	}
+	return sb.String()
+}
+
+func init() {
+	gen.RegisterOp("c12", "clientfb", func(c *gen.Ctx, raw json.RawMessage) any {
+		in := gen.Into[c12ClientFbIn](raw)
+		cases := make([]cc.VerifC12ClientCase, len(in.Cases))
+		for i, cs := range in.Cases {
+			cases[i] = cc.VerifC12ClientCase{Name: cs.Name, Mismatch: cs.Mismatch}
+			for _, m := range cs.Fb {
+				cases[i].Feedback = append(cases[i].Feedback, c12UnRLE(m))
+				c.E.Count("clientfb-message")
+			}
+		}
+		obs := cc.VerifC12ClientFeedback(cases)
+		out := c12ClientFbOut{Sideband: [][2]any{}, Merged: [][2]any{}, Hang: obs.Hang}
+		for _, sb := range obs.Sideband {
+			out.Sideband = append(out.Sideband, [2]any{sb[0], c12RLE(sb[1])})
+		}
+		for _, m := range obs.Merged {
+			out.Merged = append(out.Merged, [2]any{m[0], c12RLE(m[1])})
+		}
+		return out
+	})
+}
+
+func c12ClientFbGen(c *gen.Ctx) {
+	r := c.R
+	seg := func(s string, n int) [2]any { return [2]any{s, n} }
+	lit := func(s string) [][2]any { return [][2]any{seg(s, 1)} }
+	long := func(head string, n int, tail string) [][2]any {
+		return [][2]any{seg(head, 1), seg("y", n), seg(tail, 1)}
+	}
+	nOps := 300
+	if c.Thorough() {
+		nOps = 3000
+	}
+	var ins []any
+	for i := 0; i < nOps; i++ {
+		n := r.Range(1, 5)
+		names := make([]string, 0, n)
+		seen := map[string]bool{}
+		for len(names) < n {
+			var nm string
+			switch r.Intn(4) {
+			case 0:
+				nm = "ClientFb/case-" + strconv.Itoa(len(names))
+			case 1: // names the stderr path could not carry are fine here: nothing is parsed
+				nm = gen.Pick(r, []string{"a: b", "x: y: z", " leading", "trailing ", "tab\tname", "100%", "%s%d%!", "name/%[1]s", "名前: é"})
+			default:
+				nm = c12OddName(r, i+len(names))
+			}
+			if !seen[nm] {
+				seen[nm] = true
+				names = append(names, nm)
+			}
+		}
+		var cases []c12FbCase
+		for k, nm := range names {
+			cs := c12FbCase{Name: nm, Mismatch: r.Intn(5) == 0, Fb: [][][2]any{}}
+			for m := r.Intn(4); m > 0; m-- {
+				other := names[(k+1)%len(names)]
+				var msg [][2]any
+				switch r.Intn(12) {
+				case 0:
+					msg = lit("")
+				case 1:
+					msg = lit("expected 100% of the trailers; got %d %s %!v(MISSING) %[2]q")
+				case 2: // looks like a sideband line for another case of the batch
+					msg = lit(other + ": response should NOT be flagged for this one")
+				case 3:
+					msg = lit("line one\nline two\n" + other + ": line three\n")
+				case 4:
+					msg = lit("  leading and trailing white space \t")
+				case 5:
+					msg = long("unexpected header value: ", []int{r.Range(4000, 4200), r.Range(65400, 65600), 70000, r.Range(100000, 300000)}[r.Intn(4)], " (end)")
+				case 6:
+					msg = lit("naïve café ☕ \x00\x7f")
+				case 7:
+					msg = lit("; " + other + "; ")
+				default:
+					msg = lit("response trailer " + strconv.Itoa(r.Intn(1000)) + " should not be present")
+				}
+				cs.Fb = append(cs.Fb, msg)
+			}
+			cases = append(cases, cs)
+		}
+		ins = append(ins, c12ClientFbIn{Cases: cases})
+		c.E.Count("kind:client-feedback")
+	}
+	c.DoParallel("clientfb", ins, 8)
 }
